@@ -751,12 +751,18 @@ def run(ctx):
     from . import c14 as _c14
     from .shared import RuleProxy as _RP2
     ctx.attempt(_c14.r142, _RP2(ctx, "R-11.9", " (for paths reloaded at a restart the QuanTIS energy differences are computed from kinetic energies: the swap is not accepted with min(1, exp(beta0*dV0 - beta1*dV1)))"))
+    ctx.rule("R-11.10", "each half of a zero swap runs on the engine of its own ensemble: the per-ensemble engine table handed to the move is built from that ensemble's entry of simulation.ensemble_engines", floor=1)
+    from .shared import per_ensemble_engine_table
+    ctx.attempt(per_ensemble_engine_table, ctx, "R-11.10", " (the new [0+] path is continued with the [0-] dynamics and the QuanTIS rule evaluated with the wrong potential and beta: swapping twice does not restore the sequences)")
     from . import c19
     from .shared import RuleProxy
     ctx.attempt(c19.r195, RuleProxy(ctx, "R-11.5", " (a zero swap re-uses stored velocities in the opposite time direction: swapping twice would not restore the order-parameter sequence)"))
 
 
 VARIANTS = [
+    B("c11-engine-table-job-wide", REPEX, "                eng: eng_idx[eng] for eng in ens_engs[ens_num + 1]", "                eng: eng_idx[eng] for eng in eng_names", "R-11.10", control=True, why="seeded C11_j"),
+    B("c11-engine-table-other-ensemble", REPEX, "                eng: eng_idx[eng] for eng in ens_engs[ens_num + 1]", "                eng: eng_idx[eng] for eng in ens_engs[ens_num]", "R-11.10"),
+    K("c11-keep-engine-table-through-local", REPEX, "            md_items[\"picked\"][ens_num][\"eng_idx\"] = {\n                eng: eng_idx[eng] for eng in ens_engs[ens_num + 1]\n            }", "            own = ens_engs[ens_num + 1]\n            md_items[\"picked\"][ens_num][\"eng_idx\"] = {eng: eng_idx[eng] for eng in own}"),
     B("c11-loaded-energies-swapped", "infretis/classes/path.py", '                energy["data"]["ekin"], energy["data"]["vpot"]', '                energy["data"]["vpot"], energy["data"]["ekin"]', "R-11.9", control=True, why="seeded C11_h (= C06_d)"),
     B("c11-quantis-forward-budget-one-short", TIS, "    new_path1 = tmp_path1.empty_path(maxlen=maxlen1 - 1)", "    new_path1 = tmp_path1.empty_path(maxlen=maxlen1 - tmp_path1.length)", "R-11.8", control=True, why="seeded C11_g"),
     B("c11-quantis-backward-budget-short", TIS, "    new_path0 = tmp_path0.empty_path(maxlen=maxlen0 - 1)", "    new_path0 = tmp_path0.empty_path(maxlen=maxlen0 - 2)", "R-11.8"),
